@@ -188,6 +188,61 @@ func regKeys(p *core.Prog, parse *ssa.Function) ([]regKey, map[ssa.Value]bool) {
 	return out, list
 }
 
+// tagParamArgs: for every parameter of a function of package httpd, the values its static callers in the package pass.
+// tagViaParam: some method-tag lookup was recognised through such a parameter (the table is read by the caller).
+var (
+	tagParamArgs map[*ssa.Parameter][]ssa.Value
+	tagViaParam  bool
+)
+
+func collectParamArgs(p *core.Prog) {
+	tagParamArgs = map[*ssa.Parameter][]ssa.Value{}
+	tagViaParam = false
+	for _, fn := range p.PkgFuncs("httpd") {
+		sx.Instrs(fn, func(in ssa.Instruction) {
+			c, ok := in.(ssa.CallInstruction)
+			if !ok {
+				return
+			}
+			callee := sx.StaticCallee(c)
+			if callee == nil || !p.InModule(callee) || callee.Blocks == nil {
+				return
+			}
+			for i, a := range sx.Args(c) {
+				if i < len(callee.Params) {
+					tagParamArgs[callee.Params[i]] = append(tagParamArgs[callee.Params[i]], a)
+				}
+			}
+		})
+	}
+}
+
+// keyKind classifies a key given to the child map: a constant, a method tag (read from the table / tag function), or a
+// path segment.
+func keyKind(key ssa.Value, methodTags *ssa.Global) string {
+	if s, isC := sx.ConstString(key); isC {
+		return "const:" + s
+	}
+	if e, isE := key.(*ssa.Extract); isE && e.Index == 0 {
+		if inner, isL := e.Tuple.(*ssa.Lookup); isL && inner.CommaOk {
+			key = inner
+		}
+	}
+	if inner, isL := key.(*ssa.Lookup); isL && methodTags != nil && sx.Origins(inner.X)["global:"+methodTags.Name()] {
+		if s, isC := sx.ConstString(inner.Index); isC {
+			return "methodtag:const:" + s
+		}
+		return "methodtag:" + sx.ValPath(inner.Index)
+	}
+	if arg, isT := tagCallArg(key); isT {
+		if s, isC := sx.ConstString(arg); isC {
+			return "methodtag:const:" + s
+		}
+		return "methodtag:" + sx.ValPath(arg)
+	}
+	return "segment"
+}
+
 func lookupsOn(fn *ssa.Function, field string, methodTags *ssa.Global) []*nextLookup {
 	var out []*nextLookup
 	sx.Instrs(fn, func(in ssa.Instruction) {
@@ -196,22 +251,29 @@ func lookupsOn(fn *ssa.Function, field string, methodTags *ssa.Global) []*nextLo
 			return
 		}
 		nl := &nextLookup{in: lk, key: lk.Index, hit: map[sx.Edge]bool{}, miss: map[sx.Edge]bool{}}
-		if s, isC := sx.ConstString(lk.Index); isC {
-			nl.kind = "const:" + s
-		} else if inner, isL := lk.Index.(*ssa.Lookup); isL && methodTags != nil && sx.Origins(inner.X)["global:"+methodTags.Name()] {
-			if s, isC := sx.ConstString(inner.Index); isC {
-				nl.kind = "methodtag:const:" + s
-			} else {
-				nl.kind = "methodtag:" + sx.ValPath(inner.Index)
+		nl.kind = keyKind(lk.Index, methodTags)
+		if prm, isP := lk.Index.(*ssa.Parameter); isP && nl.kind == "segment" {
+			// the key is a parameter: when every caller of the package passes a method tag of the same kind (`tag :=
+			// methodTagMap[method]` computed once by the caller), the lookup is that method-tag lookup
+			kinds := map[string]bool{}
+			if of := sx.OrigFunc(fn); of != nil && of != fn { // an inlined view: the callers name the source function's parameter
+				for i, q := range fn.Params {
+					if q == prm && i < len(of.Params) {
+						prm = of.Params[i]
+					}
+				}
 			}
-		} else if arg, isT := tagCallArg(lk.Index); isT {
-			if s, isC := sx.ConstString(arg); isC {
-				nl.kind = "methodtag:const:" + s
-			} else {
-				nl.kind = "methodtag:" + sx.ValPath(arg)
+			for _, a := range tagParamArgs[prm] {
+				kinds[keyKind(a, methodTags)] = true
 			}
-		} else {
-			nl.kind = "segment"
+			if len(kinds) == 1 {
+				for k := range kinds {
+					if strings.HasPrefix(k, "methodtag:") {
+						nl.kind = k
+						tagViaParam = true
+					}
+				}
+			}
 		}
 		if lk.CommaOk {
 			for _, u := range *lk.Referrers() {
@@ -451,6 +513,7 @@ func runC04(p *core.Prog, r *core.Report) {
 		}
 	}
 
+	collectParamArgs(p)
 	methodTagFn, methodTagFnTable = nil, nil
 	if methodTags == nil {
 		methodTagFn, methodTagFnTable = findMethodTagFn(p)
@@ -614,6 +677,53 @@ func runC04(p *core.Prog, r *core.Report) {
 			}
 		}
 		r.Check(okDef && nDef == 1, "C04-R2", "default relay runs the selected handler exactly once", p.FuncPos(newMux), "store.I.HandlerFunc(store) once", "the default relay installed by NewMux does not call the selected handler exactly once")
+	}
+
+	// the selected route is the walk's: what ServeHTTP records as the request's route is the result of the trie lookup
+	// or the no-route entry held directly in a Mux field — not something found in a second index beside the trie
+	// (pattern text and path text differ in meaning: a trailing slash, an empty segment)
+	{
+		var bad []string
+		n := 0
+		storeT, muxT, infoT := p.Named("httpd", "Store"), p.Named("httpd", "Mux"), p.Named("httpd", "RouteInfo")
+		is := func(t types.Type, n *types.Named) bool { return t != nil && n != nil && types.Identical(t, n) }
+		sx.Instrs(serve, func(in ssa.Instruction) {
+			st, ok := in.(*ssa.Store)
+			if !ok {
+				return
+			}
+			fa, ok := st.Addr.(*ssa.FieldAddr)
+			if !ok || !is(ptrTo(fa.X.Type()), storeT) {
+				return
+			}
+			ft := ptrTo(ptrTo(fa.Type()))
+			if !is(ft, infoT) {
+				return
+			}
+			for _, lf := range leaves(st.Val) {
+				if c, isC := lf.(*ssa.Const); isC && c.IsNil() {
+					continue // the reset before the Store returns to the pool
+				}
+				n++
+				switch x := lf.(type) {
+				case *ssa.Call:
+					if callee := sx.StaticCallee(x); callee != nil && sx.OrigFunc(callee) == sx.OrigFunc(find) {
+						continue
+					}
+					bad = append(bad, "the result of "+short(sx.CalleeName(x))+" at "+p.Pos(x.Pos()))
+				case *ssa.UnOp:
+					if fa2, ok := x.X.(*ssa.FieldAddr); ok && is(ptrTo(fa2.X.Type()), muxT) {
+						if t := ptrTo(ptrTo(fa2.Type())); is(t, infoT) {
+							continue
+						}
+					}
+					bad = append(bad, short(sx.ValPath(lf))+" at "+p.Pos(x.Pos()))
+				default:
+					bad = append(bad, short(sx.ValPath(lf))+" at "+p.Pos(st.Pos()))
+				}
+			}
+		})
+		r.Check(len(bad) == 0 && n >= 2, "C04-R3", "ServeHTTP selects what the walk found, or the no-route entry", p.FuncPos(serve), fmt.Sprintf("%d recorded values, each the lookup's result or the Mux's no-route entry", n), "the request's route can be "+strings.Join(uniq(bad), ", ")+": a route chosen outside the segment-by-segment walk does not follow its rules (empty final segment, precedence)")
 	}
 
 	// ---- R3
@@ -911,6 +1021,16 @@ func runC04(p *core.Prog, r *core.Report) {
 					usesR = true
 				}
 			})
+		}
+		if tagViaParam {
+			// the method lookup receives the tags from its caller, which reads the table
+			for _, args := range tagParamArgs {
+				for _, a := range args {
+					if strings.HasPrefix(keyKind(a, methodTags), "methodtag:") {
+						usesR = true
+					}
+				}
+			}
 		}
 		r.Check(usesW && usesR, "C04-R4", "registration and lookup translate methods through the same table", "-", "both read the method tag table", "method tags are not derived from one shared table on both sides")
 	}
